@@ -462,7 +462,11 @@ class IPPO(MultiAgentRLAlgorithm):
             action = action.cpu().data.numpy()
             if not self.training and isinstance(agent_space, spaces.Box):
                 if actor.squash_output:
-                    action = actor.scale_action(action)
+                    action = (
+                        actor.scale_action(torch.as_tensor(action, device=self.device))
+                        .cpu()
+                        .numpy()
+                    )
                 else:
                     action = np.clip(action, agent_space.low, agent_space.high)
 
